@@ -1152,3 +1152,248 @@ Proof.
     rewrite app_length, IH. apply (f_equal (@length Z)) in HG. rewrite map_length in HG. rewrite HG. lia. }
   rewrite <- Lc. apply firstn_app_exact.
 Qed.
+
+(* ------------------------------------------------------------ the key order groups records by label *)
+(* keys r = slice number :: label keys; the slice number is the least significant sort key *)
+Definition lab (r : rec) : list Z := tl (keys r).
+Fixpoint zl_eqb (a b : list Z) : bool :=
+  match a, b with
+  | [], [] => true
+  | x :: a', y :: b' => (x =? y) && zl_eqb a' b'
+  | _, _ => false
+  end.
+Lemma zl_eqb_spec a b : zl_eqb a b = true <-> a = b.
+Proof.
+  revert b; induction a as [|x a IH]; intros [|y b]; cbn; split; intros H; try discriminate; try reflexivity.
+  - apply andb_true_iff in H. destruct H as [H1 H2]. apply Z.eqb_eq in H1. apply IH in H2. now subst.
+  - inversion H; subst. rewrite Z.eqb_refl. now apply IH.
+Qed.
+Definition same_lab (x r : rec) : bool := zl_eqb (lab r) (lab x).
+
+(* lexicographic facts for tuples of equal length followed by one more (least significant) component *)
+Lemma lex_snoc_le u v x y : length u = length v -> lex_le (u ++ [x]) (v ++ [y]) = true -> lex_le u v = true.
+Proof.
+  revert v; induction u as [|a u IH]; intros [|b v] L H; cbn in *; try lia; try reflexivity.
+  destruct (a <? b); [reflexivity|]. destruct (b <? a); [discriminate|]. apply IH; [lia|assumption].
+Qed.
+Lemma lex_snoc_same u x y : lex_le (u ++ [x]) (u ++ [y]) = (x <=? y).
+Proof.
+  induction u as [|a u IH]; cbn.
+  - destruct (Z.ltb_spec x y), (Z.ltb_spec y x), (Z.leb_spec x y); try lia; reflexivity.
+  - now rewrite Z.ltb_irrefl.
+Qed.
+Lemma lex_snoc_gt u v x y : length u = length v -> lex_le u v = true -> u <> v -> lex_le (v ++ [y]) (u ++ [x]) = false.
+Proof.
+  revert v; induction u as [|a u IH]; intros [|b v] L H N; cbn in *; try lia; try congruence.
+  destruct (Z.ltb_spec a b), (Z.ltb_spec b a); try lia; try reflexivity; try discriminate.
+  assert (a = b) by lia. subst. apply IH; [lia|assumption|congruence].
+Qed.
+
+Record keyed (smax : Z) (l : list rec) : Prop := {
+  k_shape : forall r, In r l -> keys r = sl r :: lab r;
+  k_len : forall a b, In a l -> In b l -> length (keys a) = length (keys b);
+  k_range : forall r, In r l -> 1 <= sl r <= smax;
+  k_closed : forall r s, In r l -> 1 <= s <= smax -> exists r', In r' l /\ lab r' = lab r /\ sl r' = s
+}.
+
+Lemma keyed_filter smax l x : keyed smax l -> keyed smax (filter (fun r => negb (same_lab x r)) l).
+Proof.
+  intros [H1 H2 H3 H4]. split.
+  - intros r Hr. apply filter_In in Hr. now apply H1.
+  - intros a b Ha Hb. apply filter_In in Ha, Hb. now apply H2.
+  - intros r Hr. apply filter_In in Hr. now apply H3.
+  - intros r s Hr Hs. apply filter_In in Hr. destruct Hr as [Hr Nr].
+    destruct (H4 r s Hr Hs) as [r' [Hr' [E1 E2]]]. exists r'. split; [|auto].
+    apply filter_In. split; [assumption|]. unfold same_lab in *. now rewrite E1.
+Qed.
+
+Definition klt (a b : rec) : Prop := rec_le a b = true /\ keys a <> keys b.
+
+Lemma rec_le_keys smax l a b : keyed smax l -> In a l -> In b l ->
+  rec_le a b = lex_le (rev (lab a) ++ [sl a]) (rev (lab b) ++ [sl b]).
+Proof.
+  intros K Ha Hb. unfold rec_le, key_le. rewrite (k_shape _ _ K a Ha), (k_shape _ _ K b Hb). reflexivity.
+Qed.
+
+Lemma lab_len smax l a b : keyed smax l -> In a l -> In b l -> length (rev (lab a)) = length (rev (lab b)).
+Proof.
+  intros K Ha Hb. pose proof (k_len _ _ K a b Ha Hb) as E.
+  rewrite (k_shape _ _ K a Ha), (k_shape _ _ K b Hb) in E. cbn in E. rewrite !rev_length. lia.
+Qed.
+
+Lemma StronglySorted_filter {A} (R : A -> A -> Prop) (p : A -> bool) l :
+  StronglySorted R l -> StronglySorted R (filter p l).
+Proof.
+  intros S. induction S as [|x l S IH F]; [constructor|]. cbn. destruct (p x); [|assumption].
+  constructor; [assumption|]. rewrite Forall_forall in *. intros y Hy. apply filter_In in Hy. now apply F.
+Qed.
+
+Lemma sorted_partition_in {A} (R : A -> A -> Prop) (p : A -> bool) l :
+  StronglySorted R l -> (forall x y, In x l -> In y l -> p x = false -> p y = true -> ~ R x y) ->
+  l = filter p l ++ filter (fun x => negb (p x)) l.
+Proof.
+  intros S. induction S as [|a r Sr IH F]; intros H; [reflexivity|].
+  assert (H' : forall x y, In x r -> In y r -> p x = false -> p y = true -> ~ R x y)
+    by (intros x y Hx Hy; apply H; now right).
+  cbn [filter]. destruct (p a) eqn:E; cbn [negb app].
+  - now rewrite <- IH.
+  - rewrite Forall_forall in F.
+    assert (Hn : forall y, In y r -> p y = false).
+    { intros y Hy. destruct (p y) eqn:Ey; [|reflexivity]. exfalso.
+      exact (H a y (or_introl eq_refl) (or_intror Hy) E Ey (F y Hy)). }
+    assert (filter p r = []) as ->.
+    { clear -Hn. induction r as [|y r IHr]; [reflexivity|]. cbn. rewrite (Hn y) by now left.
+      apply IHr. intros z Hz. apply Hn. now right. }
+    rewrite (filter_all_true (fun x => negb (p x)) r); [reflexivity|].
+    intros y Hy. now rewrite (Hn y Hy).
+Qed.
+
+Fixpoint groups (fuel : nat) (l : list rec) : list (list rec) :=
+  match fuel, l with
+  | S f, x :: _ => filter (same_lab x) l :: groups f (filter (fun r => negb (same_lab x r)) l)
+  | _, _ => []
+  end.
+
+Lemma StronglySorted_map_in {A B} (R : A -> A -> Prop) (R' : B -> B -> Prop) (f : A -> B) l :
+  StronglySorted R l -> (forall a b, In a l -> In b l -> R a b -> R' (f a) (f b)) -> StronglySorted R' (map f l).
+Proof.
+  intros S. induction S as [|x l S IH F]; intros H; [constructor|]. cbn. constructor.
+  - apply IH. intros a b Ha Hb. apply H; now right.
+  - rewrite Forall_forall in *. intros y Hy. apply in_map_iff in Hy. destruct Hy as [b [<- Hb]].
+    apply H; [now left|now right|now apply F].
+Qed.
+
+Lemma sorted_lt_NoDup (l : list Z) : StronglySorted Z.lt l -> NoDup l.
+Proof.
+  intros S. induction S as [|x l S IH F]; constructor; [|assumption].
+  rewrite Forall_forall in F. intros Hx. specialize (F x Hx). lia.
+Qed.
+
+Lemma zrange_sorted lo hi : StronglySorted Z.lt (zrange lo hi).
+Proof.
+  unfold zrange. generalize (Z.to_nat (hi + 1 - lo)) as n. intros n.
+  assert (G : forall k, StronglySorted Z.lt (map (fun i => lo + Z.of_nat i) (seq k n))).
+  { induction n as [|n IH]; intros k; cbn; constructor; [apply IH|].
+    rewrite Forall_forall. intros y Hy. apply in_map_iff in Hy. destruct Hy as [i [<- Hi]]. apply in_seq in Hi. lia. }
+  apply G.
+Qed.
+
+Definition one_label (G : list rec) : Prop := forall a b, In a G -> In b G -> lab a = lab b.
+
+Lemma groups_spec smax : forall fuel l,
+  keyed smax l -> StronglySorted klt l -> (length l <= fuel)%nat ->
+  concat (groups fuel l) = l /\ Forall (complete_group smax) (groups fuel l) /\ Forall one_label (groups fuel l).
+Proof.
+  induction fuel as [|f IH]; intros l K S Len.
+  - destruct l; [cbn; auto|cbn in Len; lia].
+  - destruct l as [|x l']; [cbn; auto|]. cbn [groups].
+    set (l := x :: l') in *. set (p := same_lab x).
+    assert (Hx : In x l) by now left.
+    assert (px : p x = true) by (unfold p, same_lab; now apply zl_eqb_spec).
+    assert (Hhead : forall a, In a l -> p a = false -> lex_le (rev (lab x)) (rev (lab a)) = true /\ rev (lab x) <> rev (lab a)).
+    { intros a Ha Pa. destruct Ha as [<-|Ha]; [congruence|].
+      inversion S as [|? ? _ F]; subst. rewrite Forall_forall in F. destruct (F a Ha) as [Le _].
+      rewrite (rec_le_keys smax l x a K Hx (or_intror Ha)) in Le. split.
+      - eapply lex_snoc_le; [|exact Le]. exact (lab_len smax l x a K Hx (or_intror Ha)).
+      - intros E. apply (f_equal (@rev Z)) in E. rewrite !rev_involutive in E.
+        unfold p, same_lab in Pa. rewrite <- E in Pa. rewrite (proj2 (zl_eqb_spec _ _) eq_refl) in Pa. discriminate. }
+    assert (Part : l = filter p l ++ filter (fun r => negb (p r)) l).
+    { apply (sorted_partition_in klt); [assumption|].
+      intros a b Ha Hb Pa Pb [Le _]. destruct (Hhead a Ha Pa) as [L1 N1].
+      rewrite (rec_le_keys smax l a b K Ha Hb) in Le.
+      apply zl_eqb_spec in Pb. rewrite Pb in Le.
+      rewrite (lex_snoc_gt (rev (lab x)) (rev (lab a)) (sl b) (sl a)) in Le; [discriminate| |assumption|assumption].
+      exact (lab_len smax l x a K Hx Ha). }
+    assert (Lr : (length (filter (fun r => negb (p r)) l) <= f)%nat).
+    { apply (f_equal (@length rec)) in Part. rewrite app_length in Part.
+      assert (1 <= length (filter p l))%nat; [|unfold l in *; cbn [length] in *; lia].
+      change (filter p l) with (if p x then x :: filter p l' else filter p l'). rewrite px. cbn. lia. }
+    destruct (IH (filter (fun r => negb (p r)) l) (keyed_filter smax l x K) (StronglySorted_filter _ _ _ S) Lr)
+      as [C1 [C2 C3]].
+    split; [|split].
+    + cbn [concat]. fold p. rewrite C1. now rewrite <- Part.
+    + constructor; [|exact C2]. fold p. unfold complete_group.
+      set (G := filter p l).
+      assert (SG : StronglySorted Z.lt (map sl G)).
+      { apply (StronglySorted_map_in klt); [now apply StronglySorted_filter|].
+        intros a b Ha Hb [Le Ne]. apply filter_In in Ha, Hb. destruct Ha as [Ha Pa], Hb as [Hb Pb].
+        apply zl_eqb_spec in Pa, Pb.
+        rewrite (rec_le_keys smax l a b K Ha Hb), Pa, Pb, lex_snoc_same in Le.
+        rewrite (k_shape _ _ K a Ha), (k_shape _ _ K b Hb), Pa, Pb in Ne.
+        assert (sl a <> sl b) by congruence. lia. }
+      apply (sort_perm_unique Z.lt); try assumption; try apply zrange_sorted; try (intros; lia).
+      apply NoDup_Permutation; [now apply sorted_lt_NoDup|apply zrange_NoDup|].
+      intros s. rewrite zrange_In, in_map_iff. split.
+      * intros [r [<- Hr]]. apply filter_In in Hr. now apply (k_range _ _ K).
+      * intros Hs. destruct (k_closed _ _ K x s Hx Hs) as [r' [Hr' [E1 E2]]]. exists r'. split; [assumption|].
+        apply filter_In. split; [assumption|]. unfold p, same_lab. now apply zl_eqb_spec.
+    + constructor; [|exact C3]. fold p. intros a b Ha Hb. apply filter_In in Ha, Hb.
+      destruct Ha as [_ Pa], Hb as [_ Pb]. apply zl_eqb_spec in Pa, Pb. congruence.
+Qed.
+
+Lemma keyed_perm smax l l' : Permutation l l' -> keyed smax l -> keyed smax l'.
+Proof.
+  intros P [H1 H2 H3 H4].
+  assert (I : forall r, In r l' -> In r l) by (intros r; apply Permutation_in; now symmetry).
+  assert (I' : forall r, In r l -> In r l') by (intros r; now apply Permutation_in).
+  split; auto.
+  intros r s Hr Hs. destruct (H4 r s (I r Hr) Hs) as [r' [Hr' E]]. exists r'. auto.
+Qed.
+
+(* the key-sorted list of a recording whose label groups are complete IS the sequence of its volumes *)
+Lemma labelled_blocks smax recs :
+  keyed smax recs -> NoDup (map keys recs) ->
+  let Gs := groups (length (stage1 recs)) (stage1 recs) in
+  stage1 recs = concat Gs /\ Forall (complete_group smax) Gs /\ Forall one_label Gs.
+Proof.
+  intros K N Gs.
+  assert (K' : keyed smax (stage1 recs)) by (apply (keyed_perm smax recs); [symmetry; apply stage1_perm|assumption]).
+  assert (S : StronglySorted klt (stage1 recs)).
+  { unfold klt. apply (sorted_strict rec_le keys).
+    - apply isort_sorted; unfold rec_le; intros; [apply key_le_total|eapply key_le_trans; eassumption].
+    - eapply Permutation_NoDup; [|exact N]. apply Permutation_map. symmetry. apply stage1_perm. }
+  destruct (groups_spec smax (length (stage1 recs)) (stage1 recs) K' S (le_n _)) as [C1 [C2 C3]].
+  split; [now symmetry|split; assumption].
+Qed.
+
+(* C20_strict_labelled_volumes: the theorem about `recs` itself *)
+Lemma strict_labelled_volumes smax recs idx :
+  keyed smax recs -> NoDup (map keys recs) -> recs <> [] -> 1 <= smax ->
+  sorted_slice_indices true smax recs = Some idx ->
+  let Gs := groups (length (stage1 recs)) (stage1 recs) in
+  select dummy idx recs = concat Gs /\ Permutation (concat Gs) recs /\
+  Forall (complete_group smax) Gs /\ Forall one_label Gs.
+Proof.
+  intros K N NE Hs SI Gs. destruct (labelled_blocks smax recs K N) as [C1 [C2 C3]]. fold Gs in C1, C2, C3.
+  split; [|split; [rewrite <- C1; apply stage1_perm|split; assumption]].
+  apply (strict_complete_volumes smax recs Gs []); try assumption.
+  - now rewrite app_nil_r.
+  - intros E. rewrite E in C1. cbn in C1. apply NE.
+    apply Permutation_nil. rewrite <- C1. apply stage1_perm.
+  - constructor.
+  - intros s [].
+  - exists 1. split; [lia|intros []].
+Qed.
+
+(* C20_strict_load_by_label: end to end, for ANY record order of a recording with complete label groups *)
+Lemma strict_load_by_label fone fdiv fmul permit fp expd smax nlab recs recs' idx o :
+  Permutation recs recs' -> keyed smax recs -> NoDup (map keys recs) -> recs <> [] -> 1 <= smax ->
+  load fone fdiv fmul true permit fp expd smax nlab recs' = Ok (idx, o) ->
+  let Gs := groups (length (stage1 recs)) (stage1 recs) in
+  Permutation (concat Gs) recs /\ Forall (complete_group smax) Gs /\ Forall one_label Gs /\
+  select dummy idx recs' = concat Gs /\
+  o_payload o = map pid (concat Gs) /\
+  o_slope o = map (slope_of fone fdiv fp) (concat Gs) /\
+  o_inter o = map (inter_of fdiv fmul fp) (concat Gs).
+Proof.
+  intros P K N NE Hs L Gs.
+  assert (K' : keyed smax recs') by now apply (keyed_perm smax recs).
+  assert (N' : NoDup (map keys recs')) by (eapply Permutation_NoDup; [apply Permutation_map; exact P|exact N]).
+  assert (NE' : recs' <> []) by (intros E; subst; apply NE; now apply Permutation_nil; symmetry).
+  assert (ES : stage1 recs' = stage1 recs) by (symmetry; now apply stage1_perm_invariant).
+  destruct (load_ok fone fdiv fmul _ _ _ _ _ _ _ _ _ L) as [_ [SI [nv [_ ->]]]].
+  destruct (strict_labelled_volumes smax recs' idx K' N' NE' Hs SI) as [C1 [C2 [C3 C4]]].
+  rewrite ES in C1, C2, C3, C4. fold Gs in C1, C2, C3, C4.
+  split; [now rewrite C2; symmetry|]. split; [assumption|]. split; [assumption|]. split; [assumption|].
+  cbn [obs_of o_payload o_slope o_inter]. now rewrite C1.
+Qed.
